@@ -19,9 +19,23 @@ ASSUMES = ['EPFS C-format suffixes other than "s" have no HTML counterpart excep
 
 # ------------------------------------------------------------------ printers
 # node: ('t', text) | ('leaf', name, args) | ('block', name, args, [(cont name, cont args, nodes)...])   (first section: cont name None)
+def fill(nodes, sp):
+    """{sp} inside argument strings stands for the blank variant under test"""
+    out = []
+    for n in nodes:
+        if n[0] == 't':
+            out.append(n)
+        elif n[0] == 'leaf':
+            out.append((n[0], n[1], n[2].replace('{sp}', sp)))
+        else:
+            out.append((n[0], n[1], n[2].replace('{sp}', sp), [(cn, ca.replace('{sp}', sp), fill(body, sp)) for cn, ca, body in n[3]]))
+    return out
+
+
 def p_dtml(nodes, opt):
     out = []
     sp = opt.get('sp', ' ')
+    nodes = fill(nodes, sp)
     for n in nodes:
         if n[0] == 't':
             out.append(n[1])
@@ -41,6 +55,7 @@ def p_dtml(nodes, opt):
 def p_ssi(nodes, opt):
     out = []
     sp = opt.get('sp', ' ')
+    nodes = fill(nodes, sp)
     end = opt.get('end', '/')
     for n in nodes:
         if n[0] == 't':
@@ -61,6 +76,7 @@ def p_ssi(nodes, opt):
 def p_epfs(nodes, opt):
     out = []
     sp = opt.get('sp', ' ')
+    nodes = fill(nodes, sp)
     for n in nodes:
         if n[0] == 't':
             out.append(n[1])
@@ -231,6 +247,11 @@ def templates(ch, av):
         [B('comment', '', S([T(ch), L('var', 'undefinedname')])), T('after')],
         [B('in', 's', S([B('if', 'c', S([B('with', 'w mapping', S([L('var', 'q'), T(ch)]))]), S([T('e')], 'else'))]))],
         [B('if', 'c', S([T('\n' + ch)]), S([T(' \n')], 'else')), T('\n' + ch)],
+        [B('in', 'ms{sp}mapping', S([L('var', 'k'), T(ch)]), S([T('none')], 'else', 'ms'))],
+        [B('in', 'es{sp}mapping{sp}size=2', S([L('var', 'k')]), S([T('none' + ch)], 'else', 'es'))],
+        [B('if', 'c', S([T('T' + ch)]), S([T('F')], 'else', 'c'))],
+        [B('if', 'c{sp}', S([T('T')]), S([T(ch)], 'elif', 'd'), S([T('F')], 'else', 'c'))],
+        [L('var', 'x{sp}upper{sp}null="%s"' % av), L('var', 'x{sp}fmt="%s%%s"' % av)],
         # malformed: all three must reject
         [B('if', 'c', S([T(ch)]), S([T('a')], 'else'), S([T('b')], 'else'))],
         [L('var', 'x bogus=1'), T(ch)],
@@ -251,7 +272,7 @@ class Obj:
 
 def make_ns_factory(n, c, xval):
     def make_ns(log):
-        return dict(x=xval, n=n, c=c, s=['i0', 'i1', 'i2'], ms=[{'k': 2}, {'k': 1}], sk='k', w={'q': 'wq'}, o=Obj(),
+        return dict(x=xval, n=n, c=c, s=['i0', 'i1', 'i2'], ms=[{'k': 2}, {'k': 1}], es=[], d=0, sk='k', w={'q': 'wq'}, o=Obj(),
                     f=Logged(log, 'f', ''), g=Logged(log, 'g', ''))
     return make_ns
 
